@@ -56,6 +56,17 @@ func NewSlice3(base unsafe.Pointer, eltSize, cap, i, j, k int) (s Slice) {
 // SliceAppend append elem data and returns a slice.
 func SliceAppend(src Slice, data unsafe.Pointer, num, etSize int) Slice {
 	if etSize == 0 {
+		// Zero-size elements: there is nothing to copy, but the length
+		// (and the capacity, when it does not suffice) still grows:
+		// len(append(s, x)) == len(s)+1.
+		newLen := src.len + num
+		if newLen > src.cap {
+			src.cap = newLen
+			if src.data == nil {
+				src.data = AllocZ(0) // a non-empty slice is not nil
+			}
+		}
+		src.len = newLen
 		return src
 	}
 	oldLen := src.len
